@@ -92,6 +92,11 @@ fn main() {
 
 /// progress marker: the driver reads the last CASE line when the process dies from an abort (SIGABRT from an
 /// unsafe-precondition check cannot be caught by catch_unwind)
+/// thorough tier: sweeps are scaled up (VERIF_TIER is exported by the driver)
+pub fn thorough() -> bool {
+    std::env::var("VERIF_TIER").map_or(false, |t| t == "thorough")
+}
+
 pub fn mark(arg: &str) {
     use std::io::Write;
     let mut o = std::io::stdout().lock();
